@@ -221,65 +221,6 @@ pub fn space(thorough: bool) -> Vec<Prog> {
             out.push(build(&env, None, es, &[], false, g, format!("none|entries={es:?}|groups={g}")));
         }
     }
-    // helpers layered over the one function that reads the variable, called by each entry point in every order:
-    // C reads it, F calls C, G calls F; H reads nothing, W calls H. Per entry an ordered list of up to two of
-    // {direct read, C, F, G, H, W}: a stage uses the variable iff its list has anything but H / W
-    {
-        let items = ["direct", "C", "F", "G", "H", "W"];
-        let mut lists: Vec<Vec<usize>> = vec![vec![]];
-        for a in 0..items.len() {
-            lists.push(vec![a]);
-            for b in 0..items.len() {
-                if a != b {
-                    lists.push(vec![a, b]);
-                }
-            }
-        }
-        let helpers = "var<push_constant> pc: vec4<f32>;\nfn layer_c() -> f32 {\n    return pc.x;\n}\nfn layer_f() -> f32 {\n    return layer_c() + 1.0;\n}\nfn layer_g() -> f32 {\n    return layer_f() * 2.0;\n}\nfn other_h() -> f32 {\n    return 3.0;\n}\nfn other_w() -> f32 {\n    return other_h() + 1.0;\n}\n";
-        let call = |i: usize| match items[i] {
-            "direct" => "pc.y",
-            "C" => "layer_c()",
-            "F" => "layer_f()",
-            "G" => "layer_g()",
-            "H" => "other_h()",
-            _ => "other_w()",
-        };
-        let reaches = |l: &Vec<usize>| l.iter().any(|i| *i < 4);
-        let body = |l: &Vec<usize>| l.iter().map(|i| format!("    acc += {};\n", call(*i))).collect::<String>();
-        let mut idx = 0usize;
-        for (vi, lv) in lists.iter().enumerate() {
-            for (fi, lf) in lists.iter().enumerate() {
-                for (ci, lc) in lists.iter().enumerate() {
-                    // quick: all (vertex, fragment) pairs with the compute entry absent, and an evenly spread 1/23 of the triples
-                    let with_c = ci != 0;
-                    idx += 1;
-                    if with_c && !(thorough && idx % 3 == 0 || idx % 23 == 0) {
-                        continue;
-                    }
-                    let mut src = String::from(helpers);
-                    src.push_str(&format!("@vertex fn vs_main() -> @builtin(position) vec4<f32> {{\n    var acc = 0.0;\n{}    return vec4<f32>(acc);\n}}\n", body(lv)));
-                    src.push_str(&format!("@fragment fn fs_main() -> @location(0) vec4<f32> {{\n    var acc = 0.0;\n{}    return vec4<f32>(acc);\n}}\n", body(lf)));
-                    let mut st = ShaderStages::NONE;
-                    if reaches(lv) {
-                        st |= ShaderStages::VERTEX;
-                    }
-                    if reaches(lf) {
-                        st |= ShaderStages::FRAGMENT;
-                    }
-                    if with_c {
-                        src.push_str(&format!("@compute @workgroup_size(1) fn cs_main() {{\n    var acc = 0.0;\n{}}}\n", body(lc)));
-                        if reaches(lc) {
-                            st |= ShaderStages::COMPUTE;
-                        }
-                    }
-                    if st == ShaderStages::NONE {
-                        st = ShaderStages::VERTEX | ShaderStages::FRAGMENT | if with_c { ShaderStages::COMPUTE } else { ShaderStages::NONE };
-                    }
-                    out.push(Prog { key: format!("layers|v={vi}|f={fi}|c={ci}"), src, expect: Some((16, st)), groups: 0 });
-                }
-            }
-        }
-    }
     // one stage reaches the variable only through a helper called at each placement context in each call form
     // (void helpers included), while another stage uses it directly or nobody else does
     for hs in Stage::ALL {
@@ -369,9 +310,83 @@ pub fn space(thorough: bool) -> Vec<Prog> {
     out
 }
 
+/// Helpers layered over the one function that reads the variable, called by each entry point in every order.
+pub fn layered_space(thorough: bool) -> Vec<Prog> {
+    let mut out = vec![];
+    // helpers layered over the one function that reads the variable, called by each entry point in every order:
+    // C reads it, F calls C, G calls F; H reads nothing, W calls H. Per entry an ordered list of up to two of
+    // {direct read, C, F, G, H, W}: a stage uses the variable iff its list has anything but H / W
+    {
+        // (P / Q: void helpers whose bodies are nothing but argument-less calls - P forwards to the void reader R,
+        // Q forwards to P)
+        let items = ["direct", "C", "F", "G", "P", "Q", "H", "W"];
+        let mut lists: Vec<Vec<usize>> = vec![vec![]];
+        for a in 0..items.len() {
+            lists.push(vec![a]);
+            for b in 0..items.len() {
+                if a != b {
+                    lists.push(vec![a, b]);
+                }
+            }
+        }
+        let helpers = "var<push_constant> pc: vec4<f32>;\nfn layer_c() -> f32 {\n    return pc.x;\n}\nfn layer_f() -> f32 {\n    return layer_c() + 1.0;\n}\nfn layer_g() -> f32 {\n    return layer_f() * 2.0;\n}\nfn other_h() -> f32 {\n    return 3.0;\n}\nfn other_w() -> f32 {\n    return other_h() + 1.0;\n}\nfn read_r() {\n    let t = pc.z;\n}\nfn fwd_p() {\n    read_r();\n}\nfn fwd_q() {\n    fwd_p();\n}\n";
+        let call = |i: usize| match items[i] {
+            "direct" => "acc += pc.y;",
+            "C" => "acc += layer_c();",
+            "F" => "acc += layer_f();",
+            "G" => "acc += layer_g();",
+            "P" => "fwd_p();",
+            "Q" => "fwd_q();",
+            "H" => "acc += other_h();",
+            _ => "acc += other_w();",
+        };
+        let reaches = |l: &Vec<usize>| l.iter().any(|i| *i < 6);
+        let body = |l: &Vec<usize>| l.iter().map(|i| format!("    {}\n", call(*i))).collect::<String>();
+        let mut idx = 0usize;
+        for (vi, lv) in lists.iter().enumerate() {
+            for (fi, lf) in lists.iter().enumerate() {
+                for (ci, lc) in lists.iter().enumerate() {
+                    // quick: all (vertex, fragment) pairs with the compute entry absent, and an evenly spread 1/23 of the triples
+                    let with_c = ci != 0;
+                    idx += 1;
+                    if with_c && !(thorough && idx % 5 == 0 || idx % 53 == 0) {
+                        continue;
+                    }
+                    // quick: pairs in which one of the two lists has at most one call, and a seventh of the others
+                    if !with_c && !thorough && lv.len() == 2 && lf.len() == 2 && idx % 7 != 0 {
+                        continue;
+                    }
+                    let mut src = String::from(helpers);
+                    src.push_str(&format!("@vertex fn vs_main() -> @builtin(position) vec4<f32> {{\n    var acc = 0.0;\n{}    return vec4<f32>(acc);\n}}\n", body(lv)));
+                    src.push_str(&format!("@fragment fn fs_main() -> @location(0) vec4<f32> {{\n    var acc = 0.0;\n{}    return vec4<f32>(acc);\n}}\n", body(lf)));
+                    let mut st = ShaderStages::NONE;
+                    if reaches(lv) {
+                        st |= ShaderStages::VERTEX;
+                    }
+                    if reaches(lf) {
+                        st |= ShaderStages::FRAGMENT;
+                    }
+                    if with_c {
+                        src.push_str(&format!("@compute @workgroup_size(1) fn cs_main() {{\n    var acc = 0.0;\n{}}}\n", body(lc)));
+                        if reaches(lc) {
+                            st |= ShaderStages::COMPUTE;
+                        }
+                    }
+                    if st == ShaderStages::NONE {
+                        st = ShaderStages::VERTEX | ShaderStages::FRAGMENT | if with_c { ShaderStages::COMPUTE } else { ShaderStages::NONE };
+                    }
+                    out.push(Prog { key: format!("layers|v={vi}|f={fi}|c={ci}"), src, expect: Some((16, st)), groups: 0 });
+                }
+            }
+        }
+    }
+    out
+}
+
 pub fn run(tier: &str) -> i32 {
     let mut rep = Report::new("C13", tier);
     let mut progs = space(true);
+    progs.extend(layered_space(tier == "thorough"));
     // module-scope variables of other address spaces (private, workgroup) declared before everything else: they are not
     // push constants, whatever their position (every 3rd program)
     {
@@ -389,7 +404,8 @@ pub fn run(tier: &str) -> i32 {
     {
         let n0 = progs.len();
         for i in 0..n0 {
-            if tier == "thorough" || hash64(&progs[i].key) % 4 == 2 {
+            let layers = progs[i].key.starts_with("layers|");
+            if (tier == "thorough" && (!layers || hash64(&progs[i].key) % 8 == 2)) || (tier != "thorough" && hash64(&progs[i].key) % if layers { 32 } else { 4 } == 2) {
                 if let Some(src) = alias_types(&progs[i].src) {
                     if naga_check(&src).is_ok() {
                         progs.push(Prog { key: format!("{}|aliased-types", progs[i].key), src, expect: progs[i].expect, groups: progs[i].groups });
@@ -401,7 +417,8 @@ pub fn run(tier: &str) -> i32 {
     // module-scope declaration order is not significant: reversed / functions-first variants (every 4th in quick)
     let n0 = progs.len();
     for i in 0..n0 {
-        if tier == "thorough" || hash64(&progs[i].key) % 4 == 1 {
+        let layers = progs[i].key.starts_with("layers|");
+        if (tier == "thorough" && (!layers || hash64(&progs[i].key) % 8 == 1)) || (tier != "thorough" && hash64(&progs[i].key) % if layers { 32 } else { 4 } == 1) {
             for how in ["reverse", "entries-first", "interleave"] {
                 if let Some(src) = reorder_decls(&progs[i].src, how) {
                     progs.push(Prog { key: format!("{}|decl-order={how}", progs[i].key), src, expect: progs[i].expect, groups: progs[i].groups });
